@@ -150,14 +150,20 @@ def compare_axis(work, ref_lines, other_lines, b_label, pid, seed, out, module="
         for k in ignore_keys:
             ev.pop(k, None)
         return json.dumps(ev, sort_keys=True)
+    def clean(ex):
+        # a reference made of several driver runs: the header (env, layout) of the NEXT run trails
+        # the last execution of the previous one and is not part of it
+        if len(ex) >= 3 and ex[-1].startswith('{"e":"layout"') and ex[-2].startswith('{"e":"env"'):
+            return ex[:-2]
+        return ex
     h1, e1 = split_executions(ref_lines)
     h2, e2 = split_executions(other_lines)
     refmap = {}
     for ex in e1:
-        refmap[ex[0]] = [norm(x) for x in ex]
+        refmap[ex[0]] = [norm(x) for x in clean(ex)]
     differing = []
     for ex in e2:
-        if refmap.get(ex[0]) == [norm(x) for x in ex]:
+        if refmap.get(ex[0]) == [norm(x) for x in clean(ex)]:
             out.traces_identity += 1
         else:
             differing.append(ex)
